@@ -88,6 +88,11 @@ for _k in ("C01", "C02", "C03", "C04", "C11", "C12", "C15", "C16"):
     _ALL[_k]["technique"] += "; hostile places include the discontinuities of the projection and the geographic conversions located by a run-time scan of the tree under test"
 for _k in ("C01", "C02", "C03", "C04", "C07", "C08", "C09", "C10", "C11", "C12", "C18", "C19", "C20"):
     _ALL[_k]["technique"] += "; judged calls are preceded now and then by rejected calls on the library's error paths"
+_ALL["C05"]["level"] += "; parent / children calls are also issued on accepted stray-bit spellings of cells (canonical-form filter on what they return)"
+_ALL["C09"]["level"] += "; one list in five contains family runs (children of one cell in order, swapped, shuffled, with repeats, all equal, with a stranger)"
+_ALL["C14"]["level"] += "; an Ok answer of a single-cell call for a word whose face / quintant field denotes no cell is a violation"
+_ALL["C15"]["level"] += "; points of every face (half of them on a triangle seam) are also presented with theta wound by 1e2..9e8 whole turns and judged against the direction of the wound coordinates"
+_ALL["C16"]["level"] += "; a cell_reach stage measures the Jacobian on the planar outlines of real edge- and vertex-straddling cells (library's get_pentagon) and counts outline points outside the assumed margin (none observed)"
 for _k in _ALL:
     if _k != "C14":
         _ALL[_k]["technique"] += "; the monitor is repeated at reduced budget in an overflow-checked / debug-assertion build"
